@@ -7,6 +7,7 @@ package oracle
 import (
 	"bytes"
 	"fmt"
+	"io"
 	"math/big"
 	"reflect"
 	"sort"
@@ -144,7 +145,7 @@ func libPoint(p ref.Pt) (curve.Point, error) {
 
 type mhW struct{ m []byte }
 
-func (m mhW) WriteTo(w ioWriter) (int64, error) {
+func (m mhW) WriteTo(w io.Writer) (int64, error) {
 	if m.m == nil {
 		return 0, fmt.Errorf("nil message")
 	}
@@ -152,8 +153,6 @@ func (m mhW) WriteTo(w ioWriter) (int64, error) {
 	return int64(n), err
 }
 func (mhW) Domain() string { return "messageHash" }
-
-type ioWriter = interface{ Write([]byte) (int, error) }
 
 // FrostChallenge computes c = H(R, Y, m) exactly as documented in docs/FROST.md / sign/types.go.
 func FrostChallenge(R, Y curve.Point, m []byte) (*big.Int, error) {
